@@ -251,7 +251,7 @@ Section Prog.
     destruct (fresh_in_vars_inv _ _ _ _ Ha) as [Hfresh [Hused _]]. simpl in Hfresh, Hused.
     pose proof (guard_of d Hin) as Hgd. unfold def_guard in Hgd. rewrite Em in Hgd.
     apply andb_prop in Hgd. destruct Hgd as [Hgd Hkeq]. apply andb_prop in Hgd. destruct Hgd as [Hgd Hkd].
-    apply andb_prop in Hgd. destruct Hgd as [Hgd _]. apply andb_prop in Hgd. destruct Hgd as [Hgd Hnc].
+    apply andb_prop in Hgd. destruct Hgd as [Hgd _].
     apply andb_prop in Hgd. destruct Hgd as [Hfr Hws]. apply Bool.eqb_prop in Hkeq.
     exists a, body, sta, st', (compile_ty bty).
     split; [exact Hwc|]. split; [rewrite Hused; left; reflexivity|].
@@ -282,7 +282,8 @@ Lemma forallb_prd_eq : forall ctx,
 Proof. induction ctx as [|b r IH]; simpl; [reflexivity|]. rewrite IH. destruct (fbchi b); reflexivity. Qed.
 
 (* Semantic preservation of fun2core for the fragment [frag] (everything except codata and calls of
-   main), under the scope check [ws] and the capture guard [nocap]: every source run that ends in a
+   main), under the scope check [ws] - and, since the repair <commitcap> of the translation, WITHOUT any
+   capture guard: shadowing binders are allowed -: every source run that ends in a
    final outcome (normal exit or undefined arithmetic) is reproduced, output and outcome, by the Core
    machine on the translated program.  Any number of definitions, recursion, non-tail conditionals
    and cases (shared continuations), data types, labels and goto. *)
@@ -314,7 +315,6 @@ Proof.
   rewrite Em, Ebty in Hgd.
   apply andb_prop in Hgd. destruct Hgd as [Hgd Hkeq]. apply andb_prop in Hgd. destruct Hgd as [Hgd Hkd].
   apply andb_prop in Hgd. destruct Hgd as [Hgd Hdt]. apply andb_prop in Hdt. destruct Hdt as [Hdt Hctxd].
-  apply andb_prop in Hgd. destruct Hgd as [Hgd Hnc].
   apply andb_prop in Hgd. destruct Hgd as [Hfr Hws].
   assert (Hkmain : tkind p (fdbody d) = false).
   { unfold tkind. rewrite Ebty. simpl. unfold data_ty in Hdt. apply negb_true_iff in Hdt. exact Hdt. }
@@ -340,13 +340,12 @@ Proof.
   - rewrite Hcb. rewrite app_nil_r in Hr.
     assert (Hsim : sim p c n (FEval (fdbody d) e1 FkHalt) (SNext (Run body ce1))).
     { apply (proj1 (fl_all p c Hcod Hcallee n (fdbody d)) n (Nat.le_refl n) (compile_ctx (fdctx d)) (fdname d) cont stx body st'
-               e1 ce1 FkHalt Hwc Hfr Hkd Hws Hnc).
+               e1 ce1 FkHalt Hwc Hfr Hkd Hws).
       - intros d' Hd'. apply (prog_find p c Hcomp Hnd). rewrite Hcd. apply in_or_app. left. right. exact Hd'.
       - intros bb Hb. unfold compile_ctx in Hb. apply in_map_iff in Hb. destruct Hb as [b0 [E Hb0]]. subst bb.
         exists (fbvar b0). split; [reflexivity|]. rewrite Hused. right. apply used_binders_mono. unfold fvars. apply in_map. exact Hb0.
       - intros y Hy. rewrite Hused. right. apply (bnd_used_binders p); assumption.
       - intros y Hy. apply in_cnames_inv in Hy. destruct Hy as [bb [Hb _]]. exfalso. exact (exit_cont_fvt _ _ _ Hb).
-      - intros y _ Hy. apply in_cnames_inv in Hy. destruct Hy as [bb [Hb _]]. exact (exit_cont_fvt _ _ _ Hb).
       - rewrite Hkmain. unfold cont. simpl. split; [reflexivity|]. split; [reflexivity|]. split.
         + rewrite (is_codata_compile p c Hcod). unfold data_ty in Hdt. apply negb_true_iff in Hdt. exact Hdt.
         + intros Hy. apply in_cnames_inv in Hy. destruct Hy as [bb [Hb _]]. exact (exit_cont_fvt _ _ _ Hb).
